@@ -280,6 +280,7 @@ FX_XSD = f'''<?xml version="1.0" encoding="UTF-8"?>
         <xs:element name="d" type="xs:decimal" fixed="1.0" minOccurs="0" maxOccurs="unbounded"/>
         <xs:element name="s" type="xs:string" fixed="a b" minOccurs="0" maxOccurs="unbounded"/>
         <xs:element name="n" type="xs:decimal" minOccurs="0" maxOccurs="unbounded"/>
+        <xs:element name="q" type="xs:positiveInteger" default="1" minOccurs="0" maxOccurs="unbounded"/>
       </xs:sequence>
       <xs:attribute name="k" type="xs:decimal" fixed="2.50"/>
     </xs:complexType>
@@ -288,6 +289,18 @@ FX_XSD = f'''<?xml version="1.0" encoding="UTF-8"?>
 '''
 
 EXTRA_FAMILIES = {'poly': POLY_XSD, 'fx': FX_XSD}
+
+
+def family_xsd(family, version):
+    """The schema text of a family for one XSD version. The 1.1 text of the tree family declares the branch name
+    inheritable, so that every nested branch and leaf is processed below an element with an inheritable attribute."""
+    text = dict(FAMILIES, **EXTRA_FAMILIES)[family]
+    if version == '1.1' and family == 'tree':
+        marked = text.replace('<xs:attribute name="name" type="xs:NCName" use="required"/>',
+                              '<xs:attribute name="name" type="xs:NCName" use="required" inheritable="true"/>')
+        assert marked != text
+        return marked
+    return text
 
 
 def _sku(i):
@@ -486,6 +499,9 @@ def gen_fx(rng, fault=None):
     for _ in range(rng.randint(0, 2)):
         xt = rng.choice((None, 'xs:integer'))
         root.children.append(N(F, 'n', [(XSI, 'type', xt)] if xt else [], text=rng.choice(('1', '2')) if xt else rng.choice(('1.5', '3'))))
+    # an empty q is valid only because its default is applied (use_defaults option)
+    for _ in range(rng.choice((0, 0, 1, 2))):
+        root.children.append(N(F, 'q', text=rng.choice(('', '', '3', '0'))))
     return root
 
 
